@@ -28,6 +28,20 @@ Theorem C06_close_once : forall c s c0 s' b,
   sub_closed b = false /\ sub_cancelled b = true.
 Proof. exact close_once. Qed.
 
+(* ... and it DOES get closed (the progress half of "exactly once"): for a subscription whose context has ended and
+   whose channel is still open, the closer goroutine's step (LSubUnreg: unsubscribe, then close) is enabled as soon
+   as SubscribeStateChanges has run (sub_started), and that set-up step (LSubDo) is enabled before; hence in every
+   quiescent state every cancelled subscription's channel is closed. *)
+Theorem C06_cancelled_gets_closed : forall c s c0 b,
+  find_sub c0 (subs s) = Some b -> sub_cancelled b = true -> sub_closed b = false ->
+  (sub_started b = true -> step c s (LSubUnreg c0) <> None) /\
+  (sub_started b = false -> step c s (LSubDo c0) <> None).
+Proof. exact sup_c06_cancelled_gets_closed. Qed.
+
+Theorem C06_quiescent_closed : forall c s c0 b,
+  quiescent c s = true -> find_sub c0 (subs s) = Some b -> sub_cancelled b = true -> sub_closed b = true.
+Proof. exact sup_c06_quiescent_closed. Qed.
+
 (* ... and a closed channel is never a broadcast target again (no send on a closed channel). *)
 Theorem C06_no_send_on_closed : forall c s,
   reachable_sup c s -> forall b, In b (subs s) -> sub_closed b = true -> sub_registered b = false.
@@ -91,6 +105,8 @@ Print Assumptions C06_final_stable.
 Print Assumptions C06_stop_stores_state.
 Print Assumptions C06_dedupe.
 Print Assumptions C06_close_once.
+Print Assumptions C06_cancelled_gets_closed.
+Print Assumptions C06_quiescent_closed.
 Print Assumptions C06_no_send_on_closed.
 
 (* non-vacuity: the late-subscription history that used to leave a stale map (F13): the runnable
@@ -105,6 +121,21 @@ Example C06_ex_late_subscription :
   exists s, run (step c06_cfg) (init c06_cfg) c06_sched = Some s /\
             smap_at s 0 = Some 2 /\ cur_at s 0 = 2 /\ ran (rn_at s 0).
 Proof. eexists. split; [vm_compute; reflexivity|]. split; [reflexivity|]. split; [reflexivity|exact Logic.I]. Qed.
+
+(* non-vacuity of C06_cancelled_gets_closed / C06_quiescent_closed: a subscription is cancelled; the closer's
+   step is enabled (so the state is not quiescent); after it the channel is closed and the state is quiescent *)
+Example C06_ex_cancelled_closed :
+  exists s b s' b',
+    run (step c06_bad_cfg) (init c06_bad_cfg)
+        [LRunEnter; LRunEntered; LLaunch 0; LRunStore 0; LRunCall 0; LMonSub 0; LMonRecv 0; LSubscribe 7; LSubDo 7; LSubCancel 7] = Some s /\
+    find_sub 7 (subs s) = Some b /\ sub_cancelled b = true /\ sub_closed b = false /\ sub_started b = true /\
+    quiescent c06_bad_cfg s = false /\
+    step c06_bad_cfg s (LSubUnreg 7) = Some s' /\ find_sub 7 (subs s') = Some b' /\ sub_closed b' = true /\
+    quiescent c06_bad_cfg s' = true.
+Proof.
+  eexists. eexists. eexists. eexists. split; [vm_compute; reflexivity|]. split; [vm_compute; reflexivity|].
+  repeat split; vm_compute; reflexivity.
+Qed.
 
 (* ---- the subscriber clause ---- *)
 
